@@ -192,6 +192,21 @@ impl<'a> Gen<'a> {
         }
     }
 
+    fn gen_special_structs(&mut self) {
+        if self.rng.chance(1, 3) {
+            let n = self.s.structs.len();
+            self.s.structs.push((format!("S{n}"), vec![]));
+        }
+        if self.rng.chance(1, 3) {
+            let n = self.s.structs.len();
+            let mut fs = vec![(format!("p{n}"), Ty::Bool)];
+            if self.rng.chance(1, 2) {
+                fs.push((format!("q{n}"), Ty::Bool));
+            }
+            self.s.structs.push((format!("S{n}"), fs));
+        }
+    }
+
     pub fn any_ty(&mut self, d: usize) -> Ty {
         match self.rng.below(16) {
             0..=4 => Ty::Int,
@@ -348,6 +363,39 @@ impl<'a> Gen<'a> {
                     plan.push(("_".into(), None));
                 }
             }
+            Ty::Struct(i) if !self.s.structs[*i].1.is_empty() && self.s.structs[*i].1.iter().all(|f| f.1 == Ty::Bool) => {
+                // enumerate every combination of the bool fields: exhaustive without a default
+                let (n, fs) = self.s.structs[*i].clone();
+                let combos = 1usize << fs.len();
+                let mut pats: Vec<String> = (0..combos)
+                    .map(|m| {
+                        let parts: Vec<String> = fs.iter().enumerate().map(|(k, (f, _))| format!("{f}: {}", (m >> k) & 1 == 1)).collect();
+                        format!("{n} {{ {} }}", parts.join(", "))
+                    })
+                    .collect();
+                if fs.len() > 1 && self.pm(self.k.odd * 4) {
+                    // same value as the first pattern, fields in the other order
+                    self.stats.push("odd:permuted-struct-pattern");
+                    let parts: Vec<String> = fs.iter().rev().map(|(f, _)| format!("{f}: false")).collect();
+                    let last = pats.len() - 1;
+                    pats[last] = format!("{n} {{ {} }}", parts.join(", "));
+                }
+                for p in pats {
+                    plan.push((p, None));
+                }
+            }
+            Ty::Opt(it) if self.pm(self.k.odd * 3) => {
+                self.stats.push("odd:binding-alternation");
+                let x = self.fresh();
+                plan.push((format!("Some({x}) | None"), Some((x, (**it).clone()))));
+            }
+            Ty::Res(a, b) if self.pm(self.k.odd * 3) => {
+                self.stats.push("odd:binding-alternation");
+                let x = self.fresh();
+                let y = self.fresh();
+                let _ = b;
+                plan.push((format!("Ok({x}) | Err({y})"), Some((x, (**a).clone()))));
+            }
             Ty::Opt(it) => {
                 let x = self.fresh();
                 let it = (**it).clone();
@@ -435,6 +483,17 @@ impl<'a> Gen<'a> {
     }
 
     fn scrutinee_ty(&mut self) -> Ty {
+        let bools: Vec<usize> = self
+            .s
+            .structs
+            .iter()
+            .enumerate()
+            .filter(|(_, (_, fs))| !fs.is_empty() && fs.iter().all(|f| f.1 == Ty::Bool))
+            .map(|(i, _)| i)
+            .collect();
+        if !bools.is_empty() && self.rng.chance(1, 6) {
+            return Ty::Struct(*self.rng.pick(&bools));
+        }
         match self.rng.below(10) {
             0..=2 => Ty::Int,
             3 => Ty::Bool,
@@ -797,6 +856,7 @@ impl<'a> Gen<'a> {
 
     pub fn program(&mut self) -> String {
         self.gen_schema();
+        self.gen_special_structs();
         self.ill_pending = self.pm(self.k.ill);
         let nf = self.rng.range(1, 4) as usize;
         for i in 0..nf {
